@@ -63,7 +63,8 @@ def condFromParts (op : String) (params : List XmlNode) (valueText : Option (Opt
       | some vt =>
         if (lookupOp op).isNone then .error .value
         -- right_value may be None/empty (falsy): then no check fires
-        else .ok { left := l, op := op, rightParam := none, rightValue := vt, leftCal := lc, rightCal := false }
+        -- an empty `<Value/>` has no text (lxml: None) and stands for the empty literal (after the `fix:` commit in DESIGN §14)
+        else .ok { left := l, op := op, rightParam := none, rightValue := some (vt.getD ""), leftCal := lc, rightCal := false }
   | [p, q] =>
     match loadParamInstanceRef p with
     | .error e => .error e
